@@ -145,10 +145,14 @@ def run_concrete(case) -> list[tuple[str, str]]:
         for api, source in (("generic", "bytesio"), ("generic", "raw"), ("generic", "buffered"),
                             ("rdflib", "bytesio"), ("rdflib", "raw"),
                             ("generic", "preamble14"), ("generic", "preamble15"),
-                            ("generic", "tinybuf")):
+                            ("generic", "tinybuf"), ("generic", "raw1"), ("generic", "raw2")):
+            if source == "raw1" and len(data) > 100_000:
+                continue  # (one byte at a time through megabytes adds nothing but time)
             src = {"bytesio": lambda: io.BytesIO(data),
                    "raw": lambda: faultio.ScheduleRaw(data),
                    "buffered": lambda: io.BufferedReader(faultio.ScheduleRaw(data, default=5)),
+                   "raw1": lambda: faultio.ScheduleRaw(data, default=1),
+                   "raw2": lambda: faultio.ScheduleRaw(data, (2,)),
                    "preamble14": lambda: after_preamble(14),
                    "preamble15": lambda: after_preamble(15),
                    "tinybuf": lambda: io.BufferedReader(
@@ -198,7 +202,7 @@ def concrete_shard(job) -> dict:
                     continue
                 case = {"level": "stream", "cls": cls, "preset": list(PRESETS[3]), "name_len": n,
                         "ascii": True, "flags": [True, True, None], "frame_length": t}
-                acc.evals += 5 * 8
+                acc.evals += 5 * 10
                 acc.nontrivial += 5
                 acc.extra.setdefault("headers", set()).update(
                     d[:3].hex() for _, d in concrete_variants(cls, PRESETS[3], "n" * n))
@@ -214,7 +218,7 @@ def concrete_shard(job) -> dict:
                     for flags in (FLAGS if nlen <= 12 else FLAGS[-1:]):
                         case = {"level": "stream", "cls": cls, "preset": list(preset),
                                 "name_len": nlen, "ascii": ascii_, "flags": list(flags)}
-                        acc.evals += 5 * 8
+                        acc.evals += 5 * 10
                         acc.nontrivial += 5
                         acc.extra.setdefault("headers", set()).update(
                             d[:3].hex() for _, d in concrete_variants(
